@@ -74,8 +74,9 @@ def main(argv):
         shutil.rmtree(scratch, ignore_errors=True)
     d = os.path.join(VERIF_DIR, 'seeded', sid)
     os.makedirs(d, exist_ok=True)
-    shutil.copy(os.path.join(src, 'patch.diff'), d)
-    shutil.copy(os.path.join(src, 'demo.py'), d)
+    if os.path.realpath(src) != os.path.realpath(d):
+        shutil.copy(os.path.join(src, 'patch.diff'), d)
+        shutil.copy(os.path.join(src, 'demo.py'), d)
     meta['verified'] = out
     meta['caught_by_quick'] = out.get('check', {}).get('quick', {}).get('exit') == 1
     json.dump(meta, open(os.path.join(d, 'meta.json'), 'w'), indent=1)
